@@ -22,6 +22,20 @@ func runC10Schema(seed int64) string {
 	gs := g.sheet("HeroConf", 1+r.Intn(8), 1+r.Intn(4))
 	container := []string{"csv", "csv", "xlsx"}[r.Intn(3)]
 	ragged := container == "csv" && r.Intn(2) == 0
+	blankCol := false
+	if r.Intn(3) == 0 && len(gs.spec.Rows[0]) > 1 {
+		// a blank column (no name, no type, no data) between the fields: a blank line of the transposed form
+		blankCol = true
+		p := 1 + r.Intn(len(gs.spec.Rows[0])-1)
+		for i, row := range gs.spec.Rows {
+			if p <= len(row) {
+				nr := append([]string{}, row[:p]...)
+				nr = append(nr, "")
+				nr = append(nr, row[p:]...)
+				gs.spec.Rows[i] = nr
+			}
+		}
+	}
 	run := func(transposed bool) (map[string]string, map[string]string, string) {
 		w := newWorkspace()
 		defer w.cleanup()
@@ -61,6 +75,9 @@ func runC10Schema(seed int64) string {
 	}
 	if len(gs.spec.Rows[0]) > 10 {
 		tag += ",wide"
+	}
+	if blankCol {
+		tag += ",blankcol"
 	}
 	tag += "]"
 	if s1 != s2 {
